@@ -367,21 +367,46 @@ def r3_4(run):
             run.ob("%s|report-only-in-service-at-active-junction" % cname, implies and len(sel.atoms()) >= 2,
                    "the report is written only for in-service rows whose junction is hydraulically active (selector: %s)" % sel,
                    run.where(f2, f2.node))
-    # the only writers of LOAD
+    # the only writers of LOAD (package-wide scan of whole-function terms: a column may be addressed alone or in a column list)
+    from ..arrnf import ANF, C, FULL, Unsupported as AUnsupported, norm_cond
+    LOADK = ("k", "idx_node.LOAD")
+
+    def cols_of(t):
+        if t[0] in ("list", "tuple"):
+            return set(t[1])
+        return {t}
     writers = set()
     for fi in ix.all_functions():
-        for n in ast.walk(fi.node):
-            t = None
-            if isinstance(n, ast.Assign):
-                t = n.targets[0]
-            elif isinstance(n, ast.AugAssign):
-                t = n.target
-            if isinstance(t, ast.Subscript) and isinstance(t.slice, ast.Tuple) and len(t.slice.elts) == 2 \
-                    and U(t.slice.elts[1]) == "LOAD":
-                mi = ix.module(fi.module)
-                imp = mi.imports.get("LOAD")
-                if imp and imp[1] == "pandapipes.idx_node":
-                    writers.add(fi.short)
+        if ".test." in fi.qualname or "LOAD" not in ast.dump(fi.node):
+            continue
+        try:
+            rr = ANF(ix, fi).run()
+        except AUnsupported:
+            continue
+        if any(len(s_.index) == 2 and LOADK in cols_of(s_.index[1]) for s_ in rr.stores()):
+            writers.add(fi.short)
+    # the accumulating columns are cleared on every path before the accumulating writers run
+    jf = ix.func("pandapipes.component_models.junction_component.Junction.create_pit_node_entries")
+    rj = ANF(ix, jf).run()
+    acc = {"LOAD": LOADK, "EXT_GRID_OCCURENCE": ("k", "idx_node.EXT_GRID_OCCURENCE"), "EXT_GRID_OCCURENCE_T": ("k", "idx_node.EXT_GRID_OCCURENCE_T")}
+    conds = sorted({repr(norm_cond(c_, True)[0]) for s_ in rj.stores() for c_, p_ in s_.cond})
+    arms = [()] if not conds else None
+    zeroed = {}
+    for s_ in rj.stores():
+        if len(s_.index) != 2 or s_.index[0] != FULL:
+            continue
+        arm = tuple(sorted((repr(norm_cond(c_, p_)[0]), norm_cond(c_, p_)[1]) for c_, p_ in s_.cond))
+        if s_.index[1] == FULL:
+            zeroed.setdefault(arm, set()).update(acc)         # the whole table is initialised
+        elif s_.value == C(0):
+            for nm, k_ in acc.items():
+                if k_ in cols_of(s_.index[1]):
+                    zeroed.setdefault(arm, set()).add(nm)
+    for arm, got in sorted(zeroed.items()):
+        run.ob("accumulators-cleared|%s" % ("&".join("%s=%s" % (a_[:40], p_) for a_, p_ in arm) or "always"), got == set(acc),
+               "Junction.create_pit_node_entries clears LOAD and both fixed-value counters on this path (also when the pit of the "
+               "previous transient step is reused)", run.where(jf, jf.node), detail="cleared: %s" % sorted(got))
+    run.ob("accumulators-cleared|both-paths", len(zeroed) >= 2, "both the fresh and the reused-pit path clear the accumulators", run.where(jf, jf.node))
     run.ob("LOAD-writers", writers == {"ConstFlow.create_pit_node_entries", "Junction.create_pit_node_entries"},
            "the only writers of the node LOAD column are ConstFlow (accumulating) and the transient reset of Junction: %s"
            % sorted(writers), "src/pandapipes")
